@@ -4,6 +4,7 @@ import Driver.Util
 /-! Driver handlers for the wire-level encoder/decoder families (syntax: see harness/wire.go). -/
 -- @family encw Drv.hEncW
 -- @family decw Drv.hDecW
+-- @family rtw Drv.hRtW
 namespace Drv
 open Fit.Wire
 
@@ -140,5 +141,113 @@ def execDecW (args : List String) : String :=
   | _ => "bad-op"
 
 def hDecW : Handler := modelOnly execDecW
+
+
+/-! ### rtw: wire-level round trip (encode, then decode) and its property predicate -/
+
+structure RtIn where
+  o : Opts
+  files : List (Hdr × List WMsg)
+  /-- the encoder rejects the input (empty messages / protocol violation): the property does not apply -/
+  rejected : Option String
+
+def parseRt (args : List String) : Option RtIn :=
+  let (kv, rest) := splitKV args
+  match parseWFiles rest with
+  | none => none
+  | some files =>
+    let o := mkOpts (kvGet kv "a") (kvGet kv "h") (kvGet kv "l")
+    let pvOpt := kvGet kv "pv"
+    let fs := files.map fun f =>
+      let pv := selectProtoVer pvOpt f.protoVer
+      ((mkHdr f.size pv f.profileVer Fit.Gen.profileVersion, f.msgs), validateFile pv f.msgs)
+    some ⟨o, fs.map (·.1), fs.findSome? (·.2)⟩
+
+def showStream (r : List Ev × Option Err) : String :=
+  (match r.2 with | some e => errName e | none => "end") ++ String.join (r.1.map showEv)
+
+def execRtW (args : List String) : String :=
+  match parseRt args with
+  | none => "bad-op"
+  | some i =>
+    -- the encoder writes the sequences before the rejected one
+    let accepted := match i.rejected with
+      | none => i.files
+      | some _ => i.files.takeWhile fun f => (validateFile f.1.protoVer f.2).isNone
+    match i.rejected with
+    | some e => "enc-" ++ e
+    | none =>
+      let bs := encodeChain i.o accepted
+      showStream (decodeStream tsKnownFn true (bs.length + 1) true bs)
+
+/-- records of one decoded sequence as the implementation reported them: (num, ts, nfields) -/
+def parseEvents (toks : List String) : Option (List (List (Nat × Option Nat × Nat) × Nat)) :=
+  let rec go : List String → List (Nat × Option Nat × Nat) → List (List (Nat × Option Nat × Nat) × Nat) →
+      Option (List (List (Nat × Option Nat × Nat) × Nat))
+    | [], [], acc => some acc.reverse
+    | [], _ :: _, _ => none          -- records after the last completed sequence
+    | t :: ts, cur, acc =>
+      if t.startsWith "D" then go ts cur acc
+      else if t.startsWith "R" then
+        match (t.drop 1).toString.splitOn "." with
+        | [_, n, tsS, k] =>
+          match n.toNat?, k.toNat? with
+          | some n, some k =>
+            let tsV := if tsS == "-" then some none else tsS.toNat?.map some
+            match tsV with
+            | some v => go ts ((n, v, k) :: cur) acc
+            | none => none
+          | _, _ => none
+        | _ => none
+      else if t.startsWith "S" then
+        match ((t.drop 1).toString.splitOn ".").getLast? with
+        | some c => match c.toNat? with
+          | some c => go ts [] ((cur.reverse, c) :: acc)
+          | none => none
+        | none => none
+      else none
+  go toks [] []
+
+/-- the property on one message: number, and either all fields back, or the original timestamp
+reconstructed and the other fields back (counted by the number of non-empty fields) -/
+def recOK (arch : Nat) (m : WMsg) (r : Nat × Option Nat × Nat) : Bool :=
+  let nz (fs : List WField) := (fs.filter fun f => f.data.length != 0).length
+  r.1 == m.num &&
+  match r.2.1 with
+  | none => r.2.2 == nz m.fields
+  | some t => t == tsOf arch m && tsOf arch m != u32Invalid && r.2.2 == nz (removeFirst tsFieldNum m.fields) + 1
+
+def propRtW (args : List String) (impl : String) : String :=
+  match parseRt args with
+  | none => "n/a"
+  | some i =>
+    if i.rejected.isSome then "n/a"
+    else if !optsOKB i.o || !(i.files.all fun f => fitOKB i.o f.1 f.2) then "n/a"   -- outside what validation lets through
+    else
+      match (impl.splitOn " ").filter (· ≠ "") with
+      | [] => "fail:no-answer"
+      | status :: evs =>
+        if status != "end" then s!"fail:decode-{status}" else
+        match parseEvents evs with
+        | none => "fail:events"
+        | some seqs =>
+          if seqs.length != i.files.length then "fail:sequence-count" else
+          let bad := (seqs.zip i.files).findSome? fun (sq, f) =>
+            if sq.1.length != f.2.length || sq.2 != f.2.length then some "fail:message-count"
+            else if (sq.1.zip f.2).all (fun (r, m) => recOK i.o.arch m r) then none else some "fail:message"
+          bad.getD "ok"
+
+def kfRtW (args : List String) : String :=
+  match parseRt args with
+  | none => "-"
+  | some i =>
+    if i.o.compress && !(i.files.all fun f => tsMonoB i.o.arch 0 f.2) then "KF-C01-ts" else "-"
+
+def hRtW : Handler := fun r =>
+  match r.mode with
+  | .model => execRtW r.args
+  | .spec => "n/a"
+  | .prop => propRtW r.args r.impl
+  | .kf => kfRtW r.args
 
 end Drv
